@@ -121,6 +121,32 @@ def c_type(ti: int, oi: int, pos: int, pv: int) -> bool:
     return _c09_ok(run(_c09_case(ti, oi, pos, pv)), ti, oi, pos, pv)
 
 
+FIRSTS = ["CREATE TABLE z (a int CHECK (a > 1));", "CREATE TABLE z (a int);\nALTER TABLE z ADD CONSTRAINT k CHECK (a > 1);", "CREATE TABLE z (a int DEFAULT 1);",
+          "CREATE TABLE z (a MAP<STRING,INT>);", "CREATE TABLE z LIKE y;", "CREATE SEQUENCE zq START 1;"]
+NF = len(FIRSTS)
+
+
+def c_type_after(ti: int, fi: int) -> bool:
+    """
+    C09 / C03: a table with a column of catalogued type #ti parsed after an earlier statement
+    (CHECK in a table or in an ALTER, DEFAULT, a <...> type, LIKE, a sequence - symbolic) is
+    exactly what it is alone.
+
+    pre: 0 <= ti < NT and 0 <= fi < NF
+    pre: not kf_angle_token(ti)
+    post: _
+    """
+    res = run(FIRSTS[fi] + "\n" + _c09_case(ti, 1, 1, 0))
+    return isinstance(res, list) and len(res) >= 2 and _c09_ok([res[-1]], ti, 1, 1, 0)
+
+
+def api_c_type_after(ti, fi):
+    from simple_ddl_parser import DDLParser
+    ddl = FIRSTS[fi] + "\n" + _c09_case(ti, 1, 1, 0)
+    got = DDLParser(ddl).run()
+    return {"ddl": ddl, "got": got, "expected_type": TYPES[ti][1], "reproduced": not (len(got) >= 2 and _c09_ok([got[-1]], ti, 1, 1, 0))}
+
+
 def api_c_type(ti, oi, pos, pv):
     from simple_ddl_parser import DDLParser
     ddl = _c09_case(ti, oi, pos, pv)
@@ -270,19 +296,26 @@ def c_clauses(i1: int, i2: int) -> bool:
     return res[0] == want
 
 
-def c_clause_mode(i: int) -> bool:
+BODYQ = BODY.replace("CREATE TABLE t ", "CREATE TABLE sales.t ")
+BASEQ = {}
+
+
+def c_clause_mode(i: int, qualified: bool) -> bool:
     """
-    C11 (owning mode): each clause owned by mode MODE alone after the table: its documented keys
+    C11 (owning mode): each clause owned by mode MODE alone after the table (plain or schema-
+    qualified table name - the clause's value must not depend on it): its documented keys
     at top level with the catalogued values, common fields equal to the clause-free table's.
 
     pre: 0 <= i < NCL
     pre: CLAUSES[i]["mode"] == MODE
     post: _
     """
-    res = run(f"{BODY} {CLAUSES[i]['clause']};", MODE)
+    res = run(f"{BODYQ if qualified else BODY} {CLAUSES[i]['clause']};", MODE)
     if not isinstance(res, list) or len(res) != 1:
         return False
-    t, b = res[0], _base(MODE)
+    if qualified and MODE not in BASEQ:
+        BASEQ[MODE] = run(BODYQ + ";", MODE)[0]
+    t, b = res[0], (BASEQ[MODE] if qualified else _base(MODE))
     for k in CLAUSES[i]["top_level_in_owning_mode"]:
         if k not in t or t[k] != CLAUSES[i]["keys"][k]:
             return False
@@ -303,9 +336,9 @@ def api_c_clauses(i1, i2):
     return {"ddl": ddl, "got": got, "expected": [want], "reproduced": got != [want]}
 
 
-def api_c_clause_mode(i):
+def api_c_clause_mode(i, qualified):
     from simple_ddl_parser import DDLParser
-    ddl = f"{BODY} {CLAUSES[i]['clause']};"
+    ddl = f"{BODYQ if qualified else BODY} {CLAUSES[i]['clause']};"
     got = DDLParser(ddl).run(output_mode=MODE)
     ok = bool(got) and all(k in got[0] and got[0][k] == CLAUSES[i]["keys"][k] for k in CLAUSES[i]["top_level_in_owning_mode"])
     return {"ddl": ddl, "mode": MODE, "got": got, "expected_keys": {k: CLAUSES[i]["keys"][k] for k in CLAUSES[i]["top_level_in_owning_mode"]}, "reproduced": not ok}
